@@ -259,6 +259,19 @@ def extra_cases(rng, tier):
     for dt in (int, bool, "int32"):
         add("array", "array(x, dtype=%s) (piecewise constant)" % (dt if isinstance(dt, str) else dt.__name__), (lambda m, z, dt=dt: m.array(z, dtype=dt) * 1.0 + 0.0 * z), [R.half_ints(rng, (2, 3))], [0], False)
         add("array", "array(x, %s) positional dtype" % (dt if isinstance(dt, str) else dt.__name__), (lambda m, z, dt=dt: m.array(z, dt) * z), [R.half_ints(rng, (2, 3))], [0], False)
+    # ---- conversions and constructors whose result type / shape differs from the argument's (batch 10 reports) ----
+    for dt in (int, bool):
+        add("full", "fill value converted to %s (piecewise constant)" % dt.__name__, (lambda m, z, dt=dt: m.full((2, 3), z, dtype=dt) * 1.0 + 0.0 * z), [2.5], [0], False)
+        add("full", "array fill value converted to %s" % dt.__name__, (lambda m, z, dt=dt: m.full((2, 3), z, dtype=dt) * 1.0 + 0.0 * z), [R.half_ints(rng, (3,))], [0], False)
+    add("full", "dtype=float32 of a float64 fill array", (lambda m, z: m.full((2, 3), z, dtype=onp.float32) * 2.0), [R.iarr(rng, (3,))], [0], True, modes=("rev",))
+    add("array", "array(x, dtype=float32) of a float64 x", (lambda m, z: m.array(z, dtype=onp.float32) * 2.0), [R.iarr(rng, (2, 3))], [0], True, modes=("rev",))
+    # (the cotangent of a float32 result is a float32 array: produced here by the full reduction that follows, as `grad` does)
+    add("array", "sum(array(x, dtype=float32)) of a float64 x", (lambda m, z: m.sum(m.array(z, dtype=onp.float32))), [R.iarr(rng, (2, 3))], [0], True, modes=("rev",))
+    add("full", "sum(full((2,3), x, dtype=float32)) of a float64 fill array", (lambda m, z: m.sum(m.full((2, 3), z, dtype=onp.float32))), [R.iarr(rng, (3,))], [0], True, modes=("rev",))
+    add("array", "array(x, float32, ndmin=3)", (lambda m, z: m.array(z, onp.float32, ndmin=3) * 2.0), [R.iarr(rng, (2, 3))], [0], True, modes=("rev",))
+    for tag, a0, a1 in (("scalar start, array stop", 0.5, onp.array([1.0, 2.0])), ("array start, scalar stop", onp.array([1.0, 2.0, -1.0]), 3.0),
+                        ("(2,1) start, (3,) stop", onp.array([[1.0], [2.0]]), onp.array([0.0, 1.0, 4.0])), ("0-d array start, array stop", onp.array(0.5), onp.array([1.0, 2.0]))):
+        add("linspace", tag + ", 5 points", (lambda m, a, b: m.linspace(a, b, 5)), [a0, a1], [0, 1], True)
     # ---- (0k) magnitudes at which squares overflow / underflow (the rules must not square what NumPy does not) ----
     big, small = onp.array([3.0e200, -1.0e180, 2.5e160]), onp.array([3.0e-200, -1.0e-180, 2.5e-170])
     for mag, pts in (("huge", big), ("tiny", small)):
